@@ -40,6 +40,8 @@ func main() {
 		famC09(os.Args[2])
 	case "c11":
 		famC11(os.Args[2])
+	case "c06p":
+		famC06p(os.Args[2])
 	default:
 		fmt.Println("unknown family", os.Args[1])
 		os.Exit(2)
